@@ -362,7 +362,13 @@ CbClientReadOne(c) ==
                                      !.frs = {<<c, i, s>> : s \in SlotsOf(r)}]
                 h0 == [Heap EXCEPT !.msg[m] = m0]
             IN
-            IF ~IsFwd(r) THEN
+            IF r.k = "bad" THEN
+              \* cread: codec.ErrInvalidResp - the connection is closed at once, nothing is written, the queue is
+              \* dropped with it (its messages are NOT recycled: their fragments may still be in flight), and
+              \* whatever followed the offending bytes is never looked at
+              /\ SetHeap(CloseClient(Heap, c, TRUE))
+              /\ cbuf' = [cbuf EXCEPT ![c] = <<>>]
+            ELSE IF ~IsFwd(r) THEN
               LET lrep == LocalRep(r)
                   h1 == IF h0.inq[c] = <<>>
                         THEN Write([h0 EXCEPT !.msg[m] = PutReset(m0)], c, lrep)
